@@ -100,6 +100,10 @@ def cases(draw, tier="quick"):
     P["kind"] = kind
     P["codes"] = [np_ + "-" + words, npb + "-" + wb]
     P["appids"] = ["appid", "appid2" if kind == "appid" else "appid"]
+    if kind == "appid" and draw(st.booleans()):
+        # application ids that differ only in letter case (of the DNS part, or of the path)
+        P["appids"] = draw(st.sampled_from([["Example.com/backup-tool", "example.com/backup-tool"],
+                                            ["lothar.com/Wormhole", "lothar.com/wormhole"], ["APPID", "appid"]]))
     if kind in ("allocsame", "allocsfx"):
         P["codemode"] = ["alloc", draw(st.sampled_from(["fromA", "input"]))]
         if kind == "allocsfx":
@@ -157,6 +161,12 @@ def run_case(P):
 
             def filt(c, payload):
                 if c.svc is not W.services[1]:
+                    if P["appids"][0] != P["appids"][1] and b'"bind"' in payload:
+                        # (both binds are rewritten to one value, whatever spelling the clients put on the wire)
+                        m = json.loads(payload)
+                        if m.get("type") == "bind":
+                            m["appid"] = P["appids"][0]
+                            return json.dumps(m).encode()
                     return payload
                 m = json.loads(payload)
                 if m.get("type") == "bind":
